@@ -1,6 +1,6 @@
 CONSTANTS
   LiftPaths = TRUE
-  InOrder = TRUE
+  InOrder = FALSE
 INIT Init
 NEXT Next
 INVARIANTS TransparentOK OnlyExposedOK HopsOKInv
